@@ -8,7 +8,8 @@ from .c06 import rnd_stmt, NAMES, VALS
 class P:
     prop = "C16"
     rule = ("(a) histories of <= 10 parse / exec calls over <= 3 contexts in one process, with programs that assign, fail midway and "
-            "reuse the same names; (b) the same calls issued concurrently, one thread per context, released together; (c) a parsed program "
+            "reuse the same names; (a') 100 rounds per process of a registration racing six first uses of that spelling on other threads, each followed by a "
+            "sequential use; (b) the same calls issued concurrently, one thread per context, released together; (c) a parsed program "
             "evaluated repeatedly on equal contexts. Oracle: every call's result and final context equal those of the reference semantics "
             "applied to that context's own calls alone (other contexts' calls and all parses are invisible); repeated evaluation gives "
             "identical results. Non-trivial = distinct history with >= 2 contexts.")
@@ -85,6 +86,21 @@ class P:
                 ops.append("@soak/EXEC:2:" + hx(src)); calls.append(("exec", 2, stmts, src))
                 ops.append("EXEC:3:" + hx(src)); calls.append(("exec", 3, stmts, src))
             items.append((" ".join(ops), ("seq", {1: {}, 2: {}, 3: {}}, calls, 0)))
+        # what other threads parse CONCURRENTLY must not change what a later call does: rounds of a registration racing the first
+        # uses of that spelling on other threads, each followed by a sequential use whose result is fixed by the registrations
+        # made so far (whatever a racing parse left in a cache on the way must not be observable afterwards)
+        for kind in "PSIF":
+            for rep in range(2 if tier == "quick" else 30):
+                ops = ["H:61:rs(%s)" % hx("h61"), "PARSE:" + hx("1")]
+                for k in range(100):
+                    w = "v%s%d%d" % (kind.lower(), rep, k)
+                    if kind == "P": reg, use, post = "REGP:%s:61" % hx(w), "PARSE:" + hx("%s 1" % w), "EXEC:1:" + hx("%s 5" % w)
+                    elif kind == "S": reg, use, post = "REGS:%s:61" % hx(w), "PARSE:" + hx("1 %s" % w), "EXEC:1:" + hx("5 %s" % w)
+                    elif kind == "I": reg, use, post = "REGI:%s:6f:0:0:61" % hx(w), "PARSE:" + hx("1 %s 2" % w), "EXEC:1:" + hx("5 %s 6" % w)
+                    else: reg, use, post = "REGF:%s:61" % hx(w), "EXEC:2:" + hx("%s(1)" % w), "EXEC:1:" + hx("%s(5)" % w)
+                    uses = [use] * 6
+                    ops += ["||"] + (uses + [reg] if k % 3 else uses[:3] + [reg] + uses[3:]) + [";;", post]
+                items.append((" ".join(ops), ("race", None, "s(%s)" % hx("h61"), 2)))
         return flow.mk_cases("hist", items)
 
     def show(self, case):
@@ -99,6 +115,17 @@ class P:
     def compare(self, case, impl, model):
         io, mo = impl.split(" "), model.split(" ")
         if len(io) != len(mo): return "length"
+        if case.meta[0] == "race":
+            # inside a parallel round a use may see the registration or not; the sequential ops are compared
+            seq = True
+            for a, b in zip(io, mo):
+                if a == "||": seq = False; continue
+                if a == ";;": seq = True; continue
+                if seq and ":L[" in a:
+                    # (the logs of calls made after a parallel round are cumulative in the harness: compare class, value, context)
+                    da, db = values.split_exec(a), values.split_exec(b)
+                    if (da["cls"], da["value"], da["ctx"]) != (db["cls"], db["value"], db["ctx"]): return "sequential call after a race"
+            return None
         par = case.meta[0] == "par"
         for a, b in zip(io, mo):
             if ":L[" in a:
@@ -119,6 +146,14 @@ class P:
         outs = impl.split(" ")[nset:]
         if any(o.split(":")[0] in ("PANIC", "DEADLOCK", "ABORT", "MISSING", "SKIP") for o in outs):
             return "violates", "a call did not return: " + " ".join(o[:10] for o in outs)
+        if kind == "race":
+            full = impl.split(" ")
+            for i, o in enumerate(full):
+                if o == ";;" and i + 1 < len(full):
+                    d = values.split_exec(full[i + 1])
+                    if d["cls"] != "OK" or d["value"] != calls:
+                        return "violates", "after the registration has returned and the racing parses are over, the operator is not in force: %s" % full[i + 1][:60]
+            return "ok", ""
         if kind == "regseq":
             for want, o in zip(calls, outs):
                 if want is None: continue
